@@ -29,6 +29,8 @@ SCENARIOS = {
     "link_subquery": ["lit-a/cat-x", "one/cat-~X~/lit-a/cat-x~E"],
     "relative_link": ["lit-a/cat-x", "lit-a/cat-~X~cat-x~E"],
     "three_tasks": ["lit-a/cat-x", "lit-a/cat-y", "lit-a/cat-x/cat-z"],
+    "three_tasks_same_list": ["mk-list-2/push-a", "mk-list-2/push-a", "mk-list-2/push-a/push-b"],
+    "three_tasks_same_text": ["lit-a/cat-x", "lit-a/cat-x", "lit-a/cat-x/cat-y"],
     "numbers": ["one/add-1", "one/add-1/add-2"],
     "dictionary": ["mk-dict-2/setkey-k-v", "mk-dict-2/setkey-k-v/ident"],
     "bytes": ["mk-bytes-3/ident", "mk-bytes-3/ident/cat-q"],
@@ -37,7 +39,8 @@ SCENARIOS = {
     "volatile_mix": ["lit-a/vol/cat-x", "lit-a/cat-x"],
     "failing_mix": ["lit-a/boom", "lit-a/cat-x"],
 }
-QUICK_SCENARIOS = ["same_query", "query_and_extension", "shared_prefix", "link_subquery", "three_tasks", "bytes", "dictionary"]
+QUICK_SCENARIOS = ["same_query", "query_and_extension", "shared_prefix", "link_subquery", "three_tasks", "bytes", "dictionary",
+                   "three_tasks_same_list", "three_tasks_same_text"]
 
 
 def shards(tier, seed):
@@ -102,6 +105,7 @@ def run_scenario(env, kind, queries, scratch, bound, budget, viol, stats, only_s
             crash._S["root"] = os.path.abspath(d)
             crash._S["target"] = None
             crash._S["on_event"] = lambda k, p, n: s.yield_point("fs:" + k, p)
+            crash._S["reads"] = True
             crash._S["active"] = True
 
         def mk(q):
@@ -152,7 +156,7 @@ def run_scenario(env, kind, queries, scratch, bound, budget, viol, stats, only_s
         import random as _random
 
         rnd = _random.Random("%s/%s/%s" % (kind, stats["scenario"], via))
-        critical = ("fs:rename", "fs:write", "fs:open_write", "fs:remove", "store", "store_metadata", "remove")
+        critical = ("fs:rename", "fs:write", "fs:open_write", "fs:open_read", "fs:remove", "store", "store_metadata", "remove")
 
         def policy(enabled, last, pend):
             if last is None or last not in enabled:
